@@ -53,11 +53,29 @@ let show = function
   | ROk (_, false) -> "ok" | ROk (_, true) -> "ok-latent" | RErr -> "err"
   | RCrash s -> "crash:" ^ site_name s | RDefer -> "defer" | RFuel -> "fuel"
 
+(* call-check cases: "F <p1> <p2> .. ; <a1> <a2> .."  with parameters "<id><I|S|F|O>" and actual
+   arguments "N<id>" (keyword symbol) or "V<I|S|F|O>" (value) *)
+let ty_of = function 'I' -> TInt | 'S' -> TStr | 'F' -> TFloat | _ -> TOther
+let call_case (toks : string list) : string =
+  let rec split acc = function
+    | ";" :: rest -> (List.rev acc, rest)
+    | x :: rest -> split (x :: acc) rest
+    | [] -> (List.rev acc, []) in
+  let (ps, args) = split [] toks in
+  let ps = List.map (fun p -> let n = String.length p in
+                      (nat_of_int (int_of_string (String.sub p 0 (n - 1))), ty_of p.[n - 1])) ps in
+  let args = List.map (fun a -> if a.[0] = 'N' then ANamed (nat_of_int (int_of_string (String.sub a 1 (String.length a - 1))))
+                        else AVal (ty_of a.[1])) args in
+  match call_check ps args with COkCall -> "ok" | CErrCall -> "err" | CCrashNil -> "crash:callcheck-nil-slot"
+
 let () =
   iter_lines (fun line ->
     match split_tab line with
     | id :: body :: _ ->
       let toks = Array.of_list (split_sp body) in
+      if Array.length toks > 0 && toks.(0) = "F" then
+        Printf.printf "%s\t%s\t-\n" id (call_case (List.tl (Array.to_list toks)))
+      else
       let xs = parse toks in
       let fuel = nat_of_int (Array.length toks + 5) in
       Printf.printf "%s\t%s\t-\n" id (show (load_deferred fuel xs))
